@@ -20,6 +20,13 @@ SPEC = os.path.join(VERIF, "spec")
 HARNESS = os.path.join(VERIF, "harness")
 EVIDENCE = os.path.join(VERIF, "evidence")
 REPLAYS = os.path.join(VERIF, "replays")
+if os.path.realpath(REPO) != "/repo":
+    # a run against another copy of the repository (seed tests, builder worktrees) is not evidence about /repo
+    _ALT = os.path.join(tempfile.gettempdir(), "verif-alt-" + os.path.basename(os.path.realpath(REPO)))
+    EVIDENCE = os.path.join(_ALT, "evidence")
+    REPLAYS = os.path.join(_ALT, "replays")
+    os.makedirs(EVIDENCE, exist_ok=True)
+    os.makedirs(REPLAYS, exist_ok=True)
 KNOWN = os.path.join(VERIF, "known_findings.jsonl")
 
 GOENV = dict(GOFLAGS="-mod=mod", GOPROXY="off", GOSUMDB="off", GOTOOLCHAIN="local")
